@@ -17,10 +17,12 @@ import (
 	"net/netip"
 	"net/url"
 	"strings"
+	"time"
 
 	"github.com/AdguardTeam/AdGuardHome/internal/dnsforward"
 	"github.com/AdguardTeam/AdGuardHome/internal/verifx/lib"
 	"github.com/AdguardTeam/AdGuardHome/internal/verifx/srv"
+	vtime "github.com/AdguardTeam/AdGuardHome/verifx/vtime"
 	"github.com/AdguardTeam/dnsproxy/proxy"
 	"github.com/miekg/dns"
 )
@@ -148,7 +150,11 @@ func runHist(h []hop) (st lib.Step, engineErr string) {
 	if err != nil {
 		return st, "assembly: " + err.Error()
 	}
-	defer e.a.Close()
+	defer func() {
+		// Reconfigure starts the listeners; Close alone would leak them.
+		_ = e.a.Server.Stop()
+		e.a.Close()
+	}()
 	var attrib []string
 	for i, o := range h {
 		got, isReq, derr := e.do(o)
@@ -184,6 +190,10 @@ func runHist(h []hop) (st lib.Step, engineErr string) {
 }
 
 func phaseHist(c *lib.Ctx) {
+	// Reconfigure sleeps 100 ms to let descriptors close; under the virtual
+	// clock the sleep returns at once (the listeners use fresh ephemeral ports).
+	vtime.SetVirtual(time.Date(2025, 3, 1, 12, 0, 0, 0, time.UTC))
+	defer vtime.SetVirtual(time.Time{})
 	depth := 4
 	if !c.Quick() {
 		depth = 5
